@@ -7,11 +7,13 @@
 include!(concat!(env!("OUT_DIR"), "/gram_mods.rs"));
 
 mod cli;
+mod emut;
 mod core;
 mod corpus;
 mod eterm;
 mod fw;
 mod gen_prog;
+mod gen_small;
 mod gen_syn;
 mod hast;
 mod perturb;
@@ -61,6 +63,14 @@ fn main() {
             let Some(tier) = Tier::parse(&args[3]) else { usage() };
             let n = |i: usize| args[i].parse::<u64>().unwrap_or(0);
             std::process::exit(fw::worker_main(p, tier, n(4), n(5), n(6), n(7), &args[8]));
+        }
+        "count-small" => {
+            for n in 1..=gen_small::MAXN {
+                println!("<= {n} nodes: {}", gen_small::total_upto(n));
+            }
+            for i in [0u64, 10, 100, 1000, 5000, 20000] {
+                println!("{}", printer::print_plain(&gen_small::nth(5, i)));
+            }
         }
         "show" => {
             // show <prop> <tier> <section> <idx>: print the input of a case without running it
